@@ -10,4 +10,10 @@ PROPS = {
     'C05': {'module': 'sim.c05', 'quick': 4000, 'thorough': 300000, 'chunk': 40},
     'C06': {'module': 'sim.c06', 'quick': 3000, 'thorough': 150000, 'chunk': 40},
     'C07': {'module': 'sim.c07', 'quick': 2500, 'thorough': 120000, 'chunk': 25},
+    'C09': {'module': 'sim.c09', 'quick': 3000, 'thorough': 200000, 'chunk': 30},
+    'C10': {'module': 'sim.c10', 'quick': 1500, 'thorough': 60000, 'chunk': 20},
+    'C11': {'module': 'sim.c11', 'quick': 3000, 'thorough': 200000, 'chunk': 30},
+    'C12': {'module': 'sim.c12', 'quick': 3000, 'thorough': 150000, 'chunk': 30},
+    'C13': {'module': 'sim.c13', 'quick': 3000, 'thorough': 150000, 'chunk': 30},
+    'C14': {'module': 'sim.c14', 'quick': 2500, 'thorough': 120000, 'chunk': 30},
 }
